@@ -7,7 +7,8 @@ for i,f in enumerate(k,1):
     text=f['text']
     text=re.sub(r'^fixed: property=\S+ \S+ ','',text)
     disp = f"repaired: `/repo` commit `{f.get('commit','')}` (`fix:`); the unedited suite passes" if f['status']=='fixed' else "**open known finding** (recorded, not repaired — see below); reported as KNOWN-FINDING, any other violation of the property still fails the check"
-    rows.append(f"| {i} | {f['property']} | {text.replace('|','\\|')} <br>*witness:* {f.get('witness','').replace('|','\\|')} <br>*signature:* `{f['signature']}` | {disp} |")
+    esc = lambda t: t.replace('|', '&#124;').replace('\n', ' ')
+    rows.append("| %d | %s | %s <br>*witness:* %s <br>*signature:* `%s` | %s |" % (i, f['property'], esc(text), esc(f.get('witness','')), f['signature'], disp))
 sec = """## 10. Findings of the built checks (genuine defects: repaired or recorded)
 
 Every entry was first reported by a check on the then-current tree, reproduced with the plain
